@@ -24,10 +24,13 @@ HTLC_GEN = T([dict(cfg="GEN_HTLC.cfg", num=8, depth=26, seeds=8)],
 HTLC_SCN = [dict(file="scenarios/htlc_boundary.ndjson", cfg="users=2"),
             dict(file="scenarios/htlc_limits.ndjson", cfg="users=2"),
             dict(file="scenarios/htlc_asset_removed.ndjson", cfg="users=2")]
-HTLC_MC = T([dict(cfg="MC_HTLC.cfg", timeout=900), dict(cfg="MC_HTLC_assets.cfg", timeout=900),
-             dict(cfg="MC_HTLC_window.cfg", timeout=900)],
-            [dict(cfg="MC_HTLC_big.cfg", timeout=3000), dict(cfg="MC_HTLC_assets_big.cfg", timeout=3000),
-             dict(cfg="MC_HTLC_window_big.cfg", timeout=3000)])
+HTLC_MC = T([dict(cfg="MC_HTLC.cfg", timeout=900, heap="4g"), dict(cfg="MC_HTLC_assets.cfg", timeout=900, heap="4g"),
+             dict(cfg="MC_HTLC_window.cfg", timeout=900, heap="4g")],
+            [dict(cfg="MC_HTLC_big.cfg", timeout=3000, heap="6g"), dict(cfg="MC_HTLC_assets_big.cfg", timeout=3000, heap="6g"),
+             dict(cfg="MC_HTLC_window_big.cfg", timeout=3000, heap="6g")])
+
+# histories recorded (VERIF_RECORD_DIR) for the cross-module checks C11 / C12
+RECORD = [dict(binary="htlc", n=T(3, 12), len=40, cfg="users=3,limit1=6,limit2=6,tbl2=4,period=60,initbal=6")]
 
 HTLC_ASSUME = ["TLC 1.8, SANY, CommunityModules Json", "Go toolchain, cosmos-sdk x/bank, x/auth",
                "harness projection functions",
